@@ -35,7 +35,7 @@ package bitmask
 // popsum(m, n) = sum of popcnt over the first n words
 //@ uninterp popsum(m []uint64, n int) int
 //@ axiom popsum_zero: forall_slice(uint64, m, popsum(m, 0) == 0)
-//@ axiom popsum_step: forall_slice(uint64, m, forall(n, 0, inf, popsum(m, n+1) == popsum(m, n) + popcnt(m[n])))
+//@ axiom popsum_step: forall_slice(uint64, m, forall_t(n, 0, inf, popsum(m, n+1), popsum(m, n+1) == popsum(m, n) + popcnt(m[n])))
 
 // bit-level meaning of the word formulas used below (pure bit-vector facts)
 //@ lemma bit_or: forall(uint64, x, 0, inf, forall(uint64, y, 0, inf, forall(t, 0, 64, bitset(x|y, t) == (bitset(x, t) || bitset(y, t)))))
@@ -46,6 +46,7 @@ package bitmask
 //@ lemma bit_inject: forall(uint64, w, 0, inf, forall(uint, s, 0, 64, forall(t, 0, 64, \
 //@     bitset(injw(w, s, true), t) == ite(t < s, bitset(w, t), ite(t == s, true, bitset(w, t-1))) && \
 //@     bitset(injw(w, s, false), t) == ite(t < s, bitset(w, t), ite(t == s, false, bitset(w, t-1))))))
+//@ lemma shift_clears: forall(uint64, w, 0, inf, forall(uint, s, 0, 64, forall(t, 0, 64, bitset((w >> s) << s, t) == (t >= int(s) && bitset(w, t)))))
 //@ lemma bit_carry: forall(uint64, w, 0, inf, forall(uint64, p, 0, inf, forall(t, 0, 64, \
 //@     bitset((w << 1) | (p >> 63), t) == ite(t == 0, bitset(p, 63), bitset(w, t-1)))))
 
@@ -66,6 +67,7 @@ package bitmask
 //@   ensures result == (bit/64 < len(bm.mask) && bitset(W(bm.mask, int(bit/64)), bit%64))
 
 //@ func (LongBitmask).OnesCount
+//@   use popsum_zero, popsum_step
 //@   ensures result == popsum(bm.mask, len(bm.mask))
 //@   loop 1 invariant -1 <= rangeindex && rangeindex < len(bm.mask)
 //@   loop 1 invariant count == popsum(bm.mask, rangeindex+1)
@@ -97,6 +99,8 @@ package bitmask
 //@     bitset(masked(m, b, int((b+uint(r))/64)), (b+uint(r))%64) && masked(m, b, int((b+uint(r))/64)) & lowmask((b+uint(r))%64) == 0)
 
 //@ func (LongBitmask).TrailingZerosFrom
+//@   assert after call math/bits.TrailingZeros64#1: tzge: idx > 0 || result >= int(lbit)
+//@   assert after call math/bits.TrailingZeros64#1: pos: (bit + uint(idx*64 + result - int(lbit)))/64 == startIdx + uint(idx) && (bit + uint(idx*64 + result - int(lbit)))%64 == uint(result)
 //@   ensures tzf(bm.mask, bit, result)
 //@   loop 1 invariant -1 <= rangeindex && rangeindex < len(bm.mask) - int(startIdx)
 //@   loop 1 invariant forall(k, int(startIdx), int(startIdx)+rangeindex+1, masked(bm.mask, bit, k) == 0)
